@@ -139,7 +139,6 @@ func decodeGoCamelCase(s string, isWordBoundary func(rune) bool) (DecodedIdentif
 					return words, nil
 				}
 			}
-			lastBoundary = i
 		}
 	}
 
